@@ -85,13 +85,38 @@ def drvStep (st : Option St) (line : String) : Option St × String :=
     | some now => (step params s (.sweep now), "ok")
     | none => (st, "bad-op")
   | some "reap", some s =>
-    match step params s .reap with
-    | some s' =>
-      let (s'', outs) := s.expired.foldl (fun (acc : St × List String) c =>
-        let (s1, o) := observe acc.1 c (timeoutPkt params); (s1, acc.2 ++ [o])) (s', [])
+    -- an uninterrupted ReapTimeout: strip, then the whole batch front to back
+    match step params s .strip with
+    | some s1 =>
+      let b := s1.batches.length - 1
+      let (s2, outs) := s.expired.foldl (fun (acc : St × List String) c =>
+        match step params acc.1 (.complete b 0) with
+        | some s' => let (s'', o) := observe s' c (timeoutPkt params); (s'', acc.2 ++ [o])
+        | none => (acc.1, acc.2 ++ [s!"none id={c.id}"])) (s1, [])
       let txt := " ; ".intercalate (sortStr outs)
-      (some s'', if outs.isEmpty then s!"n={s.expired.length}" else s!"n={s.expired.length} {txt}")
+      (some s2, if outs.isEmpty then s!"n={s.expired.length}" else s!"n={s.expired.length} {txt}")
     | none => (st, "bad-op")
+  | some "strip", some s =>
+    (step params s .strip, s!"n={s.expired.length}")
+  | some "complete", some s =>
+    -- `complete id=<k>`: the ReapTimeout that holds call k in its batch completes it
+    match kvNat? ws "id" with
+    | some id =>
+      let found : Option (Nat × Nat × Ctx) := (List.range s.batches.length).findSome? (fun b =>
+        match s.batches[b]? with
+        | some l => (List.range l.length).findSome? (fun k =>
+            match l[k]? with
+            | some c => if c.id == id then some (b, k, c) else none
+            | none => none)
+        | none => none)
+      match found with
+      | some (b, k, c) =>
+        match step params s (.complete b k) with
+        | some s' => let (s'', o) := observe s' c (timeoutPkt params); (some s'', o)
+        | none => (st, s!"none id={id}")
+      | none => (st, s!"none id={id}")
+    | none => (st, "bad-op")
+  | some "reap-end", some _ => (st, "ok")
   | some "state", some s =>
     (st, s!"counter={s.counter.toNat} pending={showNatList (sortNat (s.pending.map (·.1.toNat)))} expired={s.expired.length} queue={s.queue.length}")
   | _, _ => (st, "bad-op")
